@@ -284,8 +284,8 @@ impl VhostBackend for Frontend {
             let _ = node.recv_reply::<VhostUserLog>(&hdr)?;
             Ok(())
         } else {
-            let _ = node.send_request_with_body(FrontendReq::SET_LOG_BASE, &val, None)?;
-            Ok(())
+            let hdr = node.send_request_with_body(FrontendReq::SET_LOG_BASE, &val, None)?;
+            node.wait_for_ack(&hdr).map_err(|e| e.into())
         }
     }
 
